@@ -21,6 +21,12 @@ type fragQueue struct {
 	written int
 	// corruption: xor mask applied to the byte at absolute stream offset
 	corrupt map[int]byte
+	// set: the byte at absolute stream offset is REPLACED by this value (a constant pattern
+	// such as an all-zero label cannot be produced by a data-independent xor mask)
+	set map[int]byte
+	// dup: the byte at offset dst is replaced by the ORIGINAL byte at the earlier offset src
+	// (one label copied over a later one)
+	dup map[int]int
 	// truncate: if >= 0 the stream ends (EOF) after this many bytes
 	truncAt   int
 	waiting   bool   // a reader is blocked on an empty queue
@@ -46,6 +52,16 @@ func (q *fragQueue) Write(p []byte) (int, error) {
 		}
 		if m, ok := q.corrupt[off]; ok {
 			b ^= m
+		}
+		if v, ok := q.set[off]; ok {
+			b = v
+		}
+		if src, ok := q.dup[off]; ok && src < off {
+			if src < len(q.log) {
+				b = q.log[src]
+			} else if src-q.written < i && src >= q.written {
+				b = p[src-q.written]
+			}
 		}
 		q.buf = append(q.buf, b)
 		q.delivered = append(q.delivered, b)
